@@ -1,9 +1,9 @@
 package props
 
 import (
-	"go/types"
 	"fmt"
 	"go/token"
+	"go/types"
 	"sort"
 	"strings"
 
@@ -38,7 +38,23 @@ func (s *sess) checkEventMapping(rule string, want map[string]string) {
 				if !ok || !an.CalleeIs(&call.Call, "utils", "EventHandlerPool.Trigger") {
 					continue
 				}
-				ev := evName(an.ResolveOnPath(call.Call.Args[1], p))
+				argv := an.ResolveOnPath(call.Call.Args[1], p)
+				// the event may come out of a package-level table indexed by the state: every entry of the table is a
+				// state→event pair (the table is written by its initialiser only)
+				if ex, isEx := argv.(*ssa.Extract); isEx && ex.Index == 0 {
+					if lk, isLk := ex.Tuple.(*ssa.Lookup); isLk && lk.CommaOk && lk.Index == ssa.Value(cs.Params[1]) {
+						if entries, okT := s.constMapTable(lk.X); okT && p.Has(an.Render(lk)+"#1") {
+							if !p.Has("isEventTriggerRequired") {
+								okFlag = false
+							}
+							for k, v := range entries {
+								got[s.m.StateNames[k]] = evName(v)
+							}
+							continue
+						}
+					}
+				}
+				ev := evName(argv)
 				st := "?"
 				for _, a := range p.Atoms {
 					if a.L == "state" && a.Rel == "==" {
@@ -294,7 +310,8 @@ func runC06(c *core.Ctx, o Options) {
 			}
 			if refusal == "params" {
 				tag := mk[0].R(mk[0].Args[2])
-				if !strings.HasSuffix(tag, ".checkLogonParams("+an.Render(target)+")#1") {
+				_, tagIdx, _ := logonParamResultIdx(s.m.Method("checkLogonParams"))
+				if !strings.HasSuffix(tag, fmt.Sprintf(".checkLogonParams(%s)#%d", an.Render(target), tagIdx)) {
 					bad = append(bad, "params: RefTagID operand is "+tag+", not the tag reported by the parameter check")
 				}
 			}
@@ -497,7 +514,7 @@ func (s *sess) checkLogonParams(rule string) {
 	if !c.Anchor("logon parameter check", fn != nil, "(*Session).checkLogonParams", posOf(fn)) {
 		return
 	}
-	paths, over := an.EnumPaths(fn, 256)
+	paths, over := an.EnumPathsX(fn, 256)
 	if over {
 		c.Ob(rule, "checkLogonParams", "paths", fn.Pos()).Unknown("too many paths")
 		return
@@ -531,6 +548,12 @@ func (s *sess) checkLogonParams(rule string) {
 		if p.Return == nil || len(p.Results) != 3 {
 			bad = append(bad, "a path does not return (ok, tag, reason)")
 			continue
+		}
+		// the three results in the rule's order (ok, tag, reason) whatever their order in the signature
+		if oi, ti, ri := logonParamResultIdx(fn); oi != 0 || ti != 1 || ri != 2 {
+			q := *p
+			q.Results = []string{p.Results[oi], p.Results[ti], p.Results[ri]}
+			p = &q
 		}
 		atoms := map[string]bool{}
 		for _, a := range p.Atoms {
@@ -748,7 +771,7 @@ func (s *sess) checkIsLoggedExact(rule string) {
 		}
 		return false
 	}
-	paths, _ := an.EnumPaths(fn, 256)
+	paths, _ := an.EnumPathsX(fn, 256)
 	var bad []string
 	n := 0
 	for _, p := range paths {
@@ -785,4 +808,93 @@ func (s *sess) checkIsLoggedExact(rule string) {
 	} else {
 		ob.Ok("%d return path(s), each equivalent to state == SuccessfulLogged", n)
 	}
+}
+
+
+// constMapTable: v is a load of a package-level map variable of package session that is written only by its initialiser, with
+// constant integer keys and values: the table as key → value constant.
+func (s *sess) constMapTable(v ssa.Value) (map[int64]ssa.Value, bool) {
+	ld, ok := v.(*ssa.UnOp)
+	if !ok || ld.Op != token.MUL {
+		return nil, false
+	}
+	g, ok := ld.X.(*ssa.Global)
+	if !ok || g.Pkg != s.m.Pkg {
+		return nil, false
+	}
+	out := map[int64]ssa.Value{}
+	okAll := true
+	isG := func(x ssa.Value) bool {
+		l, ok := x.(*ssa.UnOp)
+		return ok && l.X == ssa.Value(g)
+	}
+	for _, fn := range pkgFuncs(s.m.Pkg) {
+		an.AllInstrs(fn, func(in ssa.Instruction) {
+			switch x := in.(type) {
+			case *ssa.MapUpdate:
+				if !isG(x.Map) {
+					// the freshly made map before it is stored into the global (the initialiser)
+					if mm, isMk := x.Map.(*ssa.MakeMap); isMk && fn.Name() == "init" {
+						stored := false
+						for _, ref := range *mm.Referrers() {
+							if st, isSt := ref.(*ssa.Store); isSt && st.Addr == ssa.Value(g) {
+								stored = true
+							}
+						}
+						if !stored {
+							return
+						}
+					} else {
+						return
+					}
+				} else if fn.Name() != "init" {
+					okAll = false
+					return
+				}
+				k, isK := an.ConstInt(x.Key)
+				if _, isV := an.ConstInt(x.Value); !isK || !isV {
+					okAll = false
+					return
+				}
+				out[k] = x.Value
+			case *ssa.Store:
+				if x.Addr == ssa.Value(g) && fn.Name() != "init" {
+					okAll = false
+				}
+			case *ssa.Call:
+				if b, isB := x.Call.Value.(*ssa.Builtin); isB && b.Name() == "delete" && isG(x.Call.Args[0]) {
+					okAll = false
+				}
+			}
+		})
+	}
+	return out, okAll && len(out) > 0
+}
+
+
+// logonParamResultIdx: the positions of (ok, tag, reason) among the three results of checkLogonParams — by type for the
+// boolean, by name for the two integers when the results are named (tag…/reason…), else in the pinned order.
+func logonParamResultIdx(fn *ssa.Function) (okIdx, tagIdx, reasonIdx int) {
+	okIdx, tagIdx, reasonIdx = 0, 1, 2
+	if fn == nil || fn.Signature.Results().Len() != 3 {
+		return
+	}
+	res := fn.Signature.Results()
+	var ints []int
+	for i := 0; i < 3; i++ {
+		if b, ok := res.At(i).Type().Underlying().(*types.Basic); ok && b.Kind() == types.Bool {
+			okIdx = i
+		} else {
+			ints = append(ints, i)
+		}
+	}
+	if len(ints) != 2 {
+		return 0, 1, 2
+	}
+	tagIdx, reasonIdx = ints[0], ints[1]
+	n0, n1 := strings.ToLower(res.At(ints[0]).Name()), strings.ToLower(res.At(ints[1]).Name())
+	if strings.Contains(n0, "reason") || strings.Contains(n1, "tag") {
+		tagIdx, reasonIdx = ints[1], ints[0]
+	}
+	return
 }
